@@ -56,6 +56,10 @@ def run(ctx):
             for cname, pk in (("Schneider12_vCDM", {"beta": r.uniform(0.5, 2)}), ("Schneider12", {"alpha": r.uniform(0.2, 1.5)}), ("Lovell14", {"beta": r.uniform(0.5, 1.5), "gamma": r.uniform(1, 4)})):
                 o = getattr(wdm, cname)(m=m, dndm0=dn, wdm=w, **(pk if r.random() < 0.7 else {}))
                 name = f"{cname}_dndm_alter"
+                if "tree" not in J["components"].get("WdmAlter", {}).get(name, {}):
+                    if not any(b.get("what", "").endswith(name) for b in out["broken"]):
+                        out["broken"].append({"kind": "translator", "what": f"no generated term for {name}"})
+                    continue
                 t = tup(J["components"]["WdmAlter"][name]["tree"])
                 got = np.asarray(o.dndm_alter(), float)
                 env = auto_env(t, o)
@@ -122,6 +126,19 @@ def run(ctx):
                     viol(f"MassFunctionWDM/{wmodel}/high-mass-unaffected", f"{wmodel} mx={mx}: dn/dm at the highest mass differs from CDM by {dn[-1] / cdm.dndm[-1] - 1:.3g}", {"mx": mx})
             if not np.allclose(prev, cdm.dndm, rtol=1e-3):
                 viol(f"MassFunctionWDM/{wmodel}/cdm-limit", f"{wmodel}: dn/dm at mx=1e4 keV differs from CDM by up to {float(np.max(np.abs(prev / cdm.dndm - 1))):.3g}", {"wdm_model": wmodel})
+        # convergence to CDM must not depend on the wavenumber range: narrow ranges take the framework's separate sigma_8 integration path
+        for (lo_, hi_) in ((-4.0, 6.0), (-3.0, 5.0), (-6.0, 3.0)):
+            for cls_w, cls_c, q_ in ((TransferWDM, Transfer, "power"), (MassFunctionWDM, MassFunction, "sigma")):
+                kw_ = dict(transfer_model="EH", lnk_min=lo_, lnk_max=hi_, dlnk=0.05)
+                if cls_c is MassFunction:
+                    kw_.update(Mmin=11, Mmax=15, dlog10m=0.5)
+                c_ = getattr(cls_c(**kw_), q_)
+                w_ = getattr(cls_w(wdm_mass=1e4, **kw_), q_)
+                nfw += 1
+                sel = slice(None) if q_ == "sigma" else (cls_c(**kw_).k < 5.0)
+                if not np.allclose(w_[sel], c_[sel], rtol=1e-4):
+                    viol(f"{cls_w.__name__}/cdm-limit/narrow-k-range", f"{cls_w.__name__}(wdm_mass=1e4 keV).{q_} on lnk in [{lo_},{hi_}] differs from the CDM framework's by up to {float(np.max(np.abs(w_[sel] / c_[sel] - 1))):.3g}",
+                         {"lnk_min": lo_, "lnk_max": hi_, "quantity": q_})
     out["coverage"] = {
         "evaluations": len(reqs) + nfw, "programs": len(exp), "disagreements_checked": 2 * len(exp), "traces_validated_against_impl": len(exp),
         "distinct_nontrivial": n_cases + nfw,
